@@ -97,7 +97,10 @@ func NewZKVProof(Session []byte, V, R *crypto.ECPoint, s, l *big.Int, rand io.Re
 	a, b := common.GetRandomPositiveInt(rand, q), common.GetRandomPositiveInt(rand, q)
 	aR := R.ScalarMult(a)
 	bG := crypto.ScalarBaseMult(ec, b)
-	alpha, _ := aR.Add(bG) // already on the curve.
+	alpha, err := aR.Add(bG)
+	if err != nil {
+		return nil, err
+	}
 
 	var c *big.Int
 	{
